@@ -332,7 +332,104 @@ def build_T6g(tree):
     return text, span_sha(body)
 
 
+def _lean_str(x):
+    return '"' + x.replace('\\', '\\\\').replace('"', '\\"').replace('\n', ' ') + '"'
+
+
+def build_T6h(tree):
+    """argument forwarding of every construction site of `_CombinedPixelTransform` and of every call of
+    `_get_pixels_by_frame` in image.py: (function, kind, ordinal, first argument, in a loop, guards, keywords)"""
+    sites = []
+
+    def walk(node, fn_name, in_loop, guards, counter):
+        for child in ast.iter_child_nodes(node):
+            if isinstance(child, (ast.FunctionDef, ast.AsyncFunctionDef)):
+                walk(child, (fn_name + '.' if fn_name and not fn_name[0].islower() else '') + child.name if fn_name else child.name,
+                     False, [], {})
+                continue
+            if isinstance(child, ast.ClassDef):
+                walk(child, child.name, False, [], {})
+                continue
+            if isinstance(child, (ast.For, ast.While)):
+                walk(child, fn_name, True, guards, counter)
+                continue
+            if isinstance(child, ast.If):
+                t = ast.unparse(child.test)
+                for sub in child.body:
+                    walk_stmt(sub, fn_name, in_loop, guards + [t], counter)
+                for sub in child.orelse:
+                    walk_stmt(sub, fn_name, in_loop, guards + ['not ' + t], counter)
+                # calls in the test itself
+                visit_expr(child.test, fn_name, in_loop, guards, counter)
+                continue
+            walk_stmt(child, fn_name, in_loop, guards, counter)
+
+    def walk_stmt(node, fn_name, in_loop, guards, counter):
+        if isinstance(node, (ast.FunctionDef, ast.ClassDef, ast.For, ast.While, ast.If, ast.AsyncFunctionDef)):
+            holder = ast.Module(body=[node], type_ignores=[])
+            walk(holder, fn_name, in_loop, guards, counter)
+            return
+        visit_expr(node, fn_name, in_loop, guards, counter)
+        # compound statements (with, try) carry bodies
+        for field in ('body', 'orelse', 'finalbody', 'handlers'):
+            for sub in getattr(node, field, []) or []:
+                if isinstance(sub, ast.AST):
+                    walk_stmt(sub, fn_name, in_loop, guards, counter)
+
+    def visit_expr(node, fn_name, in_loop, guards, counter):
+        stack = [node]
+        while stack:
+            n = stack.pop()
+            if isinstance(n, ast.Call):
+                f = ast.unparse(n.func)
+                kind = ('transform' if f == '_CombinedPixelTransform' else 'pixels_by_frame' if f.endswith('._get_pixels_by_frame')
+                        else 'total_pixel_matrix' if f.endswith('.get_total_pixel_matrix') else None)
+                if kind and fn_name:
+                    k = counter.get((fn_name, kind), 0)
+                    counter[(fn_name, kind)] = k + 1
+                    sites.append({'fn': fn_name, 'kind': kind, 'ordinal': k,
+                                  'target': ast.unparse(n.args[0]) if n.args else (f.rsplit('.', 1)[0] if kind != 'transform' else ''),
+                                  'in_loop': in_loop, 'guards': list(guards),
+                                  'kws': [(kw.arg or '**', ast.unparse(kw.value)) for kw in n.keywords],
+                                  'line': n.lineno})
+            for c in ast.iter_child_nodes(n):
+                if not isinstance(c, (ast.stmt,)) or c is node:
+                    stack.append(c)
+
+    counters = {}
+    for top in tree.body:
+        if isinstance(top, ast.ClassDef):
+            for item in top.body:
+                if isinstance(item, ast.FunctionDef):
+                    c = {}
+                    walk(item, top.name + '.' + item.name, False, [], c)
+        elif isinstance(top, ast.FunctionDef):
+            c = {}
+            walk(top, top.name, False, [], c)
+    sites = [s_ for s_ in sites if not s_['fn'].startswith('_CombinedPixelTransform')]
+    if not sites:
+        raise Unsupported('no construction site of _CombinedPixelTransform found in image.py')
+    sites.sort(key=lambda s_: s_['line'])
+    rows = []
+    for s_ in sites:
+        kws = ', '.join(f'({_lean_str(k)}, {_lean_str(v)})' for k, v in s_['kws'])
+        gs = ', '.join(_lean_str(g) for g in s_['guards'])
+        rows.append(f'⟨{_lean_str(s_["fn"])}, {_lean_str(s_["kind"])}, {s_["ordinal"]}, {_lean_str(s_["target"])}, '
+                    f'{"true" if s_["in_loop"] else "false"}, [{gs}], [{kws}]⟩')
+    text = ('/-- a call site: enclosing function, what is called (`transform` = `_CombinedPixelTransform(...)`, `pixels_by_frame` = '
+            '`self._get_pixels_by_frame(...)`, `total_pixel_matrix` = `self.get_total_pixel_matrix(...)`), ordinal inside the function, first argument / receiver, whether inside a loop, the '
+            'enclosing `if` tests (`not ` = else branch), keyword arguments as (name, value expression) -/\n'
+            'structure CallSite where\n  fn : String\n  kind : String\n  ordinal : Nat\n  target : String\n  inLoop : Bool\n'
+            '  guards : List String\n  kws : List (String × String)\n  deriving DecidableEq, Repr\n\n'
+            '/-- every construction site of the pixel transform in image.py, in source order -/\n'
+            'def cptCallSites : List CallSite :=\n  [' + ',\n   '.join(rows) + ']')
+    import hashlib
+    sha = hashlib.sha256(repr([(s_['fn'], s_['kind'], s_['ordinal'], s_['target'], s_['in_loop'], s_['guards'], s_['kws']) for s_ in sites]).encode()).hexdigest()
+    return text, sha
+
+
 TARGETS = {
+    'T6h': {'file': 'image.py', 'build': build_T6h},
     'T6g': {'file': 'pixels.py', 'build': build_T6g},
     'T6a': {'file': 'image.py', 'build': build_T6a},
     'T6b': {'file': 'image.py', 'build': build_T6b},
